@@ -766,7 +766,8 @@ Proof. exact statement3_implies_2. Qed.
 Print Assumptions C02_statement3_implies_statement.
 
 (* C02_statement3 restricted to the histories of C02_reach_partial extended by set_password / set_username calls with
-   arbitrary arguments and by query_pairs_mut sessions (ReachC2; canon_op = the five setters with a proved L2) *)
+   arbitrary arguments, by the quirks setters username / password / search / hash (wrappers of proved setters) and by
+   query_pairs_mut sessions (ReachC2; canon_op = the nine operations with a proved L2) *)
 Theorem C02_reach_partial2 : forall dbg hp hpo hd, HostOK2 hp hpo hd -> forall u, ReachC2 dbg hp hpo hd u ->
   Fixpoint_of_reparse dbg hp hpo hd u /\ wf_b u = true /\ ascii (ser u).
 Proof. exact reach_partial2. Qed.
